@@ -78,8 +78,71 @@ def diff_snap(a, b):
     return None
 
 
-def calls(rng, m, ss, arg):
+class _kilo_int_converters:
+    """a project-specific `int` (accepts a `k` suffix, prints as int(kilo)): registries may redefine built-in type names"""
+    phil_type = "int"
+
+    def __init__(self, **kw):
+        pass
+
+    def __str__(self):
+        return "int(kilo)"
+
+    def from_words(self, words, master):
+        t = words[0].value
+        if t.lower() in ("none", "auto"):
+            return None
+        return int(float(t[:-1]) * 1000) if t.endswith("k") else int(float(t))
+
+    def as_words(self, python_object, master):
+        from freephil import tokenizer as tk
+        return [tk.word(value="None" if python_object is None else str(python_object))]
+
+
+class _tagged_str_converters(_kilo_int_converters):
+    phil_type = "str"
+
+    def __str__(self):
+        return "str(tagged)"
+
+    def from_words(self, words, master):
+        return "<" + " ".join(w.value for w in words) + ">"
+
+
+REGISTRIES = {
+    "default": None,
+    "kilo_int": freephil.extended_converter_registry(additional_converters=[_kilo_int_converters]),
+    "tagged_str": freephil.extended_converter_registry(additional_converters=[_tagged_str_converters]),
+}
+KEEP_ALIVE = []      # parse results stay referenced for the whole run (caches keyed by weak references must not depend on the collector)
+
+
+def calls(rng, m, ss, arg, mt=None):
     """a table of repeatable calls: name -> thunk returning a comparable result"""
+    def parse_with(reg):
+        def f():
+            kw = {} if REGISTRIES[reg] is None else {"converter_registry": REGISTRIES[reg]}
+            t = freephil.parse(input_string=mt, **kw)
+            KEEP_ALIVE.append(t)
+            if len(KEEP_ALIVE) > 400:
+                del KEEP_ALIVE[:200]
+            # a cold call builds every converter from the registry it was given: a converter of another registry's class means
+            # the result depends on calls made earlier in the process
+            if REGISTRIES[reg] is not None:
+                for d in t.all_definitions():
+                    conv = d.object.type
+                    name = getattr(conv, "phil_type", None)
+                    want = REGISTRIES[reg].get(name)
+                    if want is not None and type(conv) is not want:
+                        return ("HISTORY-DEPENDENT", "parse(converter_registry=%s) gave %s a converter of class %s, the registry says %s"
+                                % (reg, d.path, type(conv).__name__, want.__name__))
+            try:
+                ex = repr(_fetch.dump(t.fetch().extract()))
+            except (Exception, freephil.Sorry) as e:
+                ex = "refused:" + type(e).__name__
+            return t.as_str(attributes_level=3), ex
+        return f
+
     def show(level):
         return lambda: (m.as_str(attributes_level=level), [s.as_str(attributes_level=level) for s in ss])
 
@@ -115,7 +178,8 @@ def calls(rng, m, ss, arg):
         return pickle.loads(pickle.dumps(m)).as_str(attributes_level=3)
     return {"show0": show(0), "show3": show(3), "fetch": fetch_str(), "fetch_track": fetch_str(track_unused_definitions=True),
             "fetch_diff": fetch_str(diff=True), "extract": extract, "format": fmt, "clone": clone, "interp": interp,
-            "resolve": resolve, "deepcopy": deep, "pickle": pick}
+            "resolve": resolve, "deepcopy": deep, "pickle": pick,
+            **({"parse_" + r: parse_with(r) for r in REGISTRIES} if mt is not None else {})}
 
 
 def guarded(f):
@@ -209,7 +273,7 @@ def run(ctx):
         arg = "%s=1" % rng.choice(paths) if paths else "zz=1"
         m = freephil.parse(input_string=mt)
         ss = [freephil.parse(input_string=s) for s in srcs]
-        table = calls(rng, m, ss, arg)
+        table = calls(rng, m, ss, arg, mt)
         names = list(table)
         history = [rng.choice(names) for _ in range(rng.choice([5, 10, 25]))]
         ctx.case((mt, tuple(srcs), tuple(history)), nontrivial=len(set(history)) < len(history))
@@ -225,6 +289,9 @@ def run(ctx):
         for step, name in enumerate(history):
             ctx.count("call_" + name)
             r = guarded(table[name])
+            if r[0] == "ok" and isinstance(r[1], tuple) and r[1] and r[1][0] == "HISTORY-DEPENDENT":
+                f = "step %d: %s: %s" % (step, name, r[1][1])
+                break
             if name in first and first[name] != r:
                 f = "step %d: repeating %s returned a different result" % (step, name)
                 break
